@@ -4,6 +4,7 @@ package main
 import (
 	"fmt"
 	"sort"
+	"verif/lib/wraps"
 
 	"gopkg.in/typ.v4/maps"
 	"verif/lib/ev"
@@ -229,6 +230,11 @@ func main() {
 	res := seqmc.Explore(r, seqmc.Config{Name: "bimap", New: func() seqmc.Sys {
 		return &h{u: u, b: &maps.Bimap[int, int]{}, model: map[int]int{}}
 	}})
+	if cases, msg := wraps.Bimap(); msg != "" {
+		r.Report(ev.Violation{Sig: "family|wrap", Msg: msg, Replay: map[string]any{"family": "wrap"}})
+	} else {
+		r.Set("wrap_family_cases", cases)
+	}
 	// an Add that panics (an unhashable value inside an interface, on a key that collides with nothing;
 	// the caller recovers) must leave the Bimap exactly as it was: no half of a pair
 	for _, prior := range []int{0, 1, 3} {
@@ -458,3 +464,6 @@ func main() {
 	r.Set("rule", "explicit-state BFS to fixpoint from the zero value over K=V={0..u-1} (incl. the zero value 0): Add(k,v) for all pairs, RemoveForward/RemoveReverse incl. absent, Clear, Clone (search continues on the clone, independence checked both ways by fingerprint); every lookup over the universe compared with a set-of-pairs model after every transition PLUS deterministic families beyond the exhaustive bound (large sizes, every single/double removal from trees built in 7 orders, long one-instance churn histories): see the *_family_* counters; the same search over 6 key/value type pairs whose values have several ==-equal spellings (+0.0/-0.0, equal strings in different memory, interfaces, structs, arrays, complex numbers), pointers and int8, every lookup made under every spelling")
 	r.Finish()
 }
+
+// ModelKey is the layout-independent state key (see seqmc.ModelKeyer).
+func (s *h) ModelKey() string { return fmt.Sprint(s.model) }
